@@ -58,8 +58,9 @@ type Tracker struct {
 	seq            int
 	Tag            string
 	// FailAt: the k-th creation call (0-based over New+CreateRandom) fails when FailAt[k] is set.
-	FailAt map[int]bool
-	calls  int
+	FailAt  map[int]bool
+	calls   int
+	failRel map[int]func()
 	// Inner, when set, delegates storage to a real factory (real wipe/alloc behaviour).
 	Inner securememory.SecretFactory
 	// SourceBufs retains the caller's slice given to New (to check it is wiped).
@@ -100,11 +101,30 @@ func (t *Tracker) create(origin string, content []byte, inner securememory.Secre
 
 func (t *Tracker) failNow() bool {
 	t.mu.Lock()
-	defer t.mu.Unlock()
 	k := t.calls
 	t.calls++
-	return t.FailAt[k]
+	fire := t.failRel[k]
+	fail := t.FailAt[k] || fire != nil
+	t.mu.Unlock()
+	if fire != nil {
+		fire()
+	}
+	return fail
 }
+
+// FailRel makes the rel-th creation call from now on (0 = the next one) fail;
+// onFire is called when that happens.
+func (t *Tracker) FailRel(rel int, onFire func()) {
+	t.mu.Lock()
+	defer t.mu.Unlock()
+	if t.failRel == nil {
+		t.failRel = map[int]func(){}
+	}
+	t.failRel[t.calls+rel] = onFire
+}
+
+// ClearFail removes all planned relative allocation failures.
+func (t *Tracker) ClearFail() { t.mu.Lock(); t.failRel = nil; t.mu.Unlock() }
 
 // New implements SecretFactory: copies b, wipes b.
 func (t *Tracker) New(b []byte) (securememory.Secret, error) {
